@@ -1632,11 +1632,34 @@ fn dummy_functions(compiler: &PrimaryCodegen) -> Result<PrimaryCodegen, CompileE
     fold_m(
         &|compiler: &PrimaryCodegen, form: &HelperForm| match form {
             HelperForm::Defun(false, defun) => {
+                // A function may be defined only once, whether inline or not.
+                fail_if_present(defun.loc.clone(), &compiler.inlines, &defun.name, ())?;
+                if compiler.parentfns.contains(&defun.name) {
+                    return Err(CompileErr(
+                        defun.loc.clone(),
+                        format!(
+                            "Cannot redefine {}",
+                            SExp::Atom(defun.loc.clone(), defun.name.clone())
+                        ),
+                    ));
+                }
                 let mut c_copy = compiler.clone();
                 c_copy.parentfns.insert(defun.name.clone());
                 Ok(c_copy)
             }
             HelperForm::Defun(true, defun) => Ok(compiler)
+                .and_then(|comp| {
+                    if compiler.parentfns.contains(&defun.name) {
+                        return Err(CompileErr(
+                            defun.loc.clone(),
+                            format!(
+                                "Cannot redefine {}",
+                                SExp::Atom(defun.loc.clone(), defun.name.clone())
+                            ),
+                        ));
+                    }
+                    Ok(comp)
+                })
                 .and_then(|comp| {
                     fail_if_present(defun.loc.clone(), &compiler.inlines, &defun.name, comp)
                 })
